@@ -51,6 +51,10 @@ fn main() {
             println!("{}", selftest::corpus_json());
             0
         }
+        "corpus-blocks" => {
+            println!("{}", selftest::corpus_json_blocks());
+            0
+        }
         "corpus-thorough" => {
             println!("{}", selftest::corpus_json_thorough());
             0
